@@ -346,7 +346,7 @@ Section ServerProofs.
       destruct (special_name n) eqn:Es; [injection E as _ <-; congruence|].
       destruct (bad_name n) eqn:Eb; [injection E as _ <-; congruence|].
       assert (d' = dupdate n (DFile (idx_encode ix)) d) as Ed'.
-      { destruct (dlookup n d) as [[b|]|]; injection E as _ <-; congruence. }
+      { destruct (dlookup n d) as [[b| |]|]; injection E as _ <-; congruence. }
       exists ix. destruct (special_name_false _ Es) as [N1 [N2 N3]].
       repeat split; try assumption; try reflexivity.
       + destruct (base_no_slash (r_path r)) as [Hb|Hb]; [contradiction|exact Hb].
@@ -365,13 +365,13 @@ Section ServerProofs.
     destruct (auth_denied c r); [reflexivity|].
     destruct (r_method r); cbn [index_exec fst]; try reflexivity.
     - unfold fs_open. rewrite El. destruct (special_name _); [reflexivity|]. destruct (bad_name _); [reflexivity|].
-      destruct (dlookup (base (r_path r)) d2) as [[b|]|]; try reflexivity. destruct (idx_decode b); reflexivity.
+      destruct (dlookup (base (r_path r)) d2) as [[b| |]|]; try reflexivity. destruct (idx_decode b); reflexivity.
     - unfold fs_open. rewrite El. destruct (special_name _); [reflexivity|]. destruct (bad_name _); [reflexivity|].
-      destruct (dlookup (base (r_path r)) d2) as [[b|]|]; reflexivity.
+      destruct (dlookup (base (r_path r)) d2) as [[b| |]|]; reflexivity.
     - destruct (c_writable c); cbn [negb]; [|reflexivity]. destruct (c_store_writable c); cbn [negb]; [|reflexivity].
       destruct (idx_decode (r_body r)) as [ix|] eqn:Ed; [|reflexivity]. cbn [index_exec]. rewrite Ed.
       unfold fs_create. destruct (special_name _); [reflexivity|]. destruct (bad_name _); [reflexivity|].
-      rewrite El. destruct (dlookup (base (r_path r)) d2) as [[b|]|]; reflexivity.
+      rewrite El. destruct (dlookup (base (r_path r)) d2) as [[b| |]|]; reflexivity.
   Qed.
 
   (* File content is only ever taken from an entry of the served directory with a plain name. *)
@@ -379,7 +379,7 @@ Section ServerProofs.
     fs_open d n = OFile b -> dlookup n d = Some (DFile b) /\ n <> [dot] /\ n <> [dot; dot] /\ n <> [slash].
   Proof.
     unfold fs_open. destruct (special_name n) eqn:Es; [discriminate|]. destruct (bad_name n); [discriminate|].
-    destruct (dlookup n d) as [[c|]|]; try discriminate. intros [= ->]. split; [reflexivity|].
+    destruct (dlookup n d) as [[c| |]|]; try discriminate. intros [= ->]. split; [reflexivity|].
     now apply special_name_false.
   Qed.
 End ServerProofs.
